@@ -222,6 +222,9 @@ func (t *QuicTransport) runDialingCall(call *dialingQuicCall) {
 		if c != nil {
 			c.CloseWithError(quic.ApplicationErrorCode(_DOQ_NO_ERROR), "")
 		}
+		// Don't leave the exchanges that are waiting for this dial hanging.
+		call.err = ErrClosedTransport
+		close(call.done)
 		return
 	}
 	t.c = c
